@@ -53,6 +53,7 @@ struct vh_window {
 extern unsigned vh_thread_windows(unsigned thr, const struct vh_window **w); /* closed windows of a thread */
 extern struct vh_window vh_thread_open_window(unsigned thr);
 extern double vh_thread_last_gvt(unsigned thr);
+extern int vh_thread_seen(unsigned thr);
 extern unsigned vh_threads_seen(void);
 
 /* ---- per-LP results ---- */
